@@ -16,4 +16,16 @@ CHECKS = {
         ],
         assumptions=["documents with duplicate member names are not generated (no defined JSON semantics)"],
     ),
+    "C14": dict(
+        level="exploration",
+        rule=("rapid-generated arm/stop/advance sequences (durations 1 ns .. 120 s, advances placed at d-1, d, d+1, stop directly after arm "
+              "without yielding) on a real server-role connection in 'pending listen' on the synctest virtual clock; oracle = reference model "
+              "'at most one live timer: the last armed and not stopped', observed timeouts (one prolongation frame each) must equal the "
+              "modelled instants. non-trivial = a stop or re-arm while a timer is armed; distinct = hash of the op sequence"),
+        runs=[
+            dict(engine="shipsim", test="TestC14", quick=dict(checks=30000, shards=4, timeout=600),
+                 thorough=dict(checks=1000000, shards=16, timeout=3000)),
+        ],
+        assumptions=["timeouts are observed through their effect in the pending-listen state (one prolongation request frame per timeout)"],
+    ),
 }
